@@ -360,3 +360,26 @@ PROPS["C15"] = dict(
         dict(name="bridge", run="^TestBridge$", quick=10000, thorough=300000, shards=8, timeout_thorough=3000),
     ],
 )
+
+PROPS["C10"] = dict(
+    pkg="c10", level="exploration",
+    technique="model-based stateful property testing (rapid): generated histories of New/With*/Set*/package-level calls over a growing forest against a reference tree model, all loggers re-checked after every step; stress test for anonymous children; production and testing binaries",
+    claim=("Histories of 3-40 operations on randomly chosen loggers of a growing forest (package-level New named/anonymous with options, New on "
+           "a logger with a fresh name, the name of an existing named or anonymous child, \"\" or no argument, every With* and every Set* for "
+           "level, JSON/colour mode, UTC mode, time format, attrs (3 forms), skip, context keys, writers, package-level SetLevel, probes) are "
+           "run against a tree model. After EVERY step every logger's Level/JSONMode/ColorMode/Skip/Name/Parent/Root must equal the model; "
+           "Each and Sublogger are checked from sampled nodes every 5th step and from every root at the end; at the end (and at probe steps) "
+           "each logger emits records through its own private writer, which must arrive only there, in the model's format, admitted by the "
+           "model's level, carrying the model's name, own and (with the flag) inherited attributes, and the model's time zone mode and layout. "
+           "New(existing name) must return the very same child; With* must return a logger that did not exist (WithSkip: one per n); Set* must "
+           "return the receiver. 20k (quick) / 200k (thorough) consecutive With* calls must give as many distinct children."),
+    note="Each case installs a fresh default logger (the process-wide one keeps children of earlier cases and has no public reset). Every logger gets private recording writers right after creation (child loggers do not inherit writers). The wall clock seeding the anonymous names cannot be owned by the harness: covered by the stress test. The production-binary stage checks the Warn default level.",
+    rule=("rapid draws the history. Non-trivial: >= 3 loggers and (a With* and a Set* occurred, or New was called with the name of an existing "
+          "child); distinct = the history text."),
+    assumptions=["gating oracle = C01 rule incl. the debug-mode side effect of SetLevel(Debug)", "record decoding = C04/C05 decoders, merge = C07 reference"],
+    stages=[
+        dict(name="testing", run="^TestHierarchy$", quick=4000, thorough=150000, shards=16, timeout_thorough=3000),
+        dict(name="production", run="^TestHierarchy$", mode="prod", quick=2000, thorough=100000, shards=16, timeout_thorough=3000),
+        dict(name="stress", run="^TestAnonymousChildrenDistinct$", quick=1, thorough=1, timeout_thorough=3000),
+    ],
+)
